@@ -38,7 +38,7 @@ def _cat_operands(e, dim_ok=("-1",)):
         name = attr_chain(e.func).split(".")[-1]
         d = kwarg(e, "dim", 1)
         if name in ("column_stack", "hstack"):
-            dtxt = "-1"
+            dtxt = "1"  # axis 1 — the last axis only for a single batch axis
         else:
             dtxt = dump(d) if d is not None else "0"
         if isinstance(e.args[0], (ast.List, ast.Tuple)):
